@@ -9,7 +9,7 @@
    quantify over all scripts, all initial memories satisfying the bucket invariant, and ALL
    schedules.  [wrap] is reduction mod 2^64. *)
 From Coq Require Import Permutation.
-From ZenoV Require Import Stats.Atomics Stats.AtomicsBase Stats.Effects Stats.StatsProofs Stats.GaugeProofs Stats.Witness.
+From ZenoV Require Import Stats.Atomics Stats.AtomicsBase Stats.Effects Stats.StatsProofs Stats.GaugeProofs Stats.StopProofs Stats.Witness.
 Open Scope N_scope.
 
 (* Totals.  Whatever else the goroutines do (resets, per-second getters, stats.Reset(), TUI reads,
@@ -88,6 +88,27 @@ Theorem C17_gauge_exact : forall c bodies sched m0,
   /\ (finished cf = true -> live_count c (c_trace cf) (length bodies) = 0%nat).
 Proof. exact gauge_exact_lemma. Qed.
 Print Assumptions C17_gauge_exact.
+
+(* Zero after stop.  A stage's workers are  Incr; body; Decr; wg.Done()  (wg.Done is the worker's first
+   defer, so it runs last) after Start() did wg.Add(1) for each; Stop() = cancel(); wg.Wait() returns
+   only once the WaitGroup counter is 0.  At every point of every interleaving of the workers'
+   actions (their exit actions included): counter 0 => the gauge is back at its initial value. *)
+Theorem C17_stop_returned_gauge_zero : forall c bodies sched m0,
+  wfm m0 -> forallb (gauge_free c) bodies = true ->
+  get m0 (LWg c) = N.of_nat (length bodies) -> N.of_nat (length bodies) < W ->
+  let cf := run (start (map (stage_worker c) bodies) m0) sched in
+  stop_returned c (c_mem cf) = true -> get (c_mem cf) (LCnt c) = get m0 (LCnt c).
+Proof. exact stop_returned_gauge_zero_lemma. Qed.
+Print Assumptions C17_stop_returned_gauge_zero.
+
+(* The order of the deferred calls is what makes it true: with wg.Done() running before the
+   decrement, Stop() can return while the gauge still counts workers. *)
+Theorem C17_stop_returned_bad_order_refuted :
+  exists sched,
+    let cf := run (start (map (stage_worker_bad CPost) [[]; []]) [(LWg CPost, 2)]) sched in
+    stop_returned CPost (c_mem cf) = true /\ get (c_mem cf) (LCnt CPost) = 2.
+Proof. exact stop_returned_bad_order_refuted_lemma. Qed.
+Print Assumptions C17_stop_returned_bad_order_refuted.
 
 (* counter.decr(step) - an Add of ^uint64(step-1) - is subtraction mod 2^64, for every step. *)
 Theorem C17_decr_is_subtraction : forall x s, s < W -> wrap (wrap (x + s) + decr_arg s) = wrap x.
